@@ -353,9 +353,10 @@ def execute(scn, keep_trace=False):
                         break
         if not ok:
             break
+        # signature of a history: which forms it used, in order of first use (not the full sequence)
         seq = []
         for f in forms:
-            if not seq or seq[-1] != f:
+            if f not in seq:
                 seq.append(f)
         sigparts.append(",".join(seq))
         insts.append((a, b, mdl, tuple(sorted(r for p in parts if "reject" not in p for r in p["rows"]))))
